@@ -119,6 +119,7 @@ pub fn faulted_request(ctx: &mut RunCtx, sc: &Scenario, dep: &Deployment, fault:
     let desc = format!("{:?} (fired={}, changed={})", fault, fired.fired, fired.changed);
     ctx.note("fault", J::s(desc.clone()));
     ctx.note("row_evaluator", J::s(format!("{:?}", verdict)));
+    ctx.st.log(digest(format!("{:?}|{}", verdict, res.is_ok()).as_bytes()));
     let sig = scenario_sig(sc) ^ digest(desc.as_bytes());
     ctx.st.eval(sig, fired.changed || matches!(fault, HostFault::Twin(..)));
     match (verdict, res) {
